@@ -698,8 +698,9 @@ func runC01(c *Ctx) {
 	checkIdleExclusive(c, fns, lf)
 
 	// ---------------------------------------------------------------- R7
-	c.rule("R7", "pooled buffers: no use, send, store, return or second release after ReleaseBuf; deferred-release buffers do not escape", 25)
+	c.rule("R7", "pooled buffers: no use, send, store, return or second release after ReleaseBuf; deferred-release buffers do not escape; a buffer that was sent is not released by the sender", 26)
 	checkBufferTypestate(c, p.Funcs)
+	checkNoReleaseAfterHandover(c, p.funcsIn(relTransport, relDoh, relUpstream))
 
 	// ---------------------------------------------------------------- R9
 	c.rule("R9", "the reply channel registered for a query is made by that registration, never recycled or shared", 2)
